@@ -148,3 +148,5 @@ def run(ctx):
     # whole-loop tie for PANOC: verified model (Panoc.v) vs the real solver on whole runs
     from vf.props import PANOC
     PANOC.attach(ctx)
+    from vf.props import ZEROFPR
+    ZEROFPR.attach(ctx)
